@@ -28,7 +28,7 @@ from mc import c13_lane as lane
 from mc import c13_model as model
 from mc import corpus
 from mc.common import Ctx, Result, Violation, log, same_diagnostics, scratch, seeded_order
-from mc.kernel import chunked, pmap, subsets
+from mc.kernel import chunked, pmap, run_isolated, subsets
 
 PROPERTY = "C13"
 LEVEL = "exploration"
@@ -49,7 +49,7 @@ def _code_names(cs: Any) -> set[str]:
     return {c.code for c in cs}
 
 
-def take_baseline(prog: dict, extra: list[str]) -> dict[str, Any] | str:
+def take_baseline(prog: dict, extra: list[str], rerun: bool = True) -> dict[str, Any] | str:
     """Run P (+extra flags) twice; returns the captured state, or a reason string why P is unusable."""
     try:
         b = lane.build_once(prog, prog["main"], extra)
@@ -65,6 +65,7 @@ def take_baseline(prog: dict, extra: list[str]) -> dict[str, Any] | str:
         "messages": b["messages"], "blocker": b["blocker"], "options": b["options"], "infos": infos,
         "ignore_prefix": E.ignore_prefix,
         "ignored_lines": dict(E.ignored_lines.get(MAIN, {})),
+        "all_ignored_lines": {f: dict(v) for f, v in E.ignored_lines.items()},
         "skipped_lines": set(E.skipped_lines.get(MAIN, set())),
         "swallowed": b["swallowed"], "once_dropped": b["once_dropped"],
         "file_codes": {f: (_code_names(o.disabled_error_codes), _code_names(o.enabled_error_codes))
@@ -77,9 +78,10 @@ def take_baseline(prog: dict, extra: list[str]) -> dict[str, Any] | str:
     r = model.render(b["options"], E.ignore_prefix, infos, {})
     if not same_diagnostics(r, b["messages"])[0]:
         return "render self-check failed"
-    b2 = lane.build_once(prog, prog["main"], extra)
-    if b2["messages"] != b["messages"] or b2["blocker"] != b["blocker"]:
-        return "baseline not reproducible in-process"
+    if rerun:
+        b2 = lane.build_once(prog, prog["main"], extra)
+        if b2["messages"] != b["messages"] or b2["blocker"] != b["blocker"]:
+            return "baseline not reproducible in-process"
     return base
 
 
@@ -174,27 +176,50 @@ def comment_text(listed: list[str]) -> str:
     return "# type: ignore" + (f"[{', '.join(listed)}]" if listed else "")
 
 
-def diff_signature(family: str, kind: str, actual: list[str], expected: list[str], blocker_changed: bool) -> tuple[str, list[str], list[str]]:
+def diff_groups(prefix: str, relation: Any, actual: list[str], expected: list[str], blocker_changed: bool) -> list[tuple[str, list[str], list[str]]]:
+    """Cause-level signatures of a mismatch: the differing lines are grouped by source location and code;
+    signature = <family>:<relation of the perturbation to that code>|<added/removed/changed>|<severity>[<code>]
+    (code-less notes carry their abstracted text).  Returns [(signature, extra lines, missing lines)]."""
+    import re
+
     ca, ce = Counter(actual), Counter(expected)
     extra = sorted((ca - ce).elements())
     missing = sorted((ce - ca).elements())
-    parts = sorted({"+" + model.shape(x) for x in extra} | {"-" + model.shape(x) for x in missing})
+    groups: dict[tuple, dict[str, list[str]]] = {}
+    for sign, lines in (("+", extra), ("-", missing)):
+        for x in lines:
+            m = model.LOC_RE.match(x)
+            mc = re.search(r"  \[([a-z0-9-]+)\]$", x)
+            code = mc.group(1) if mc else ""
+            if m:
+                key = (m.group("file"), int(m.group("line")), m.group("sev"), code if code else model.shape(x)[:60])
+            else:
+                key = ("", 0, "?", "unlocated")
+            groups.setdefault(key, {"+": [], "-": []})[sign].append(x)
+    out: dict[str, tuple[list[str], list[str]]] = {}
+    for (f, ln, sev, code), g in sorted(groups.items()):
+        change = "changed" if g["+"] and g["-"] else ("added" if g["+"] else "removed")
+        what = f"{sev}[{code}]" if not code.startswith(sev) else code
+        sig = f"{prefix}:{relation(f, ln, code)}|{change}|{what}"
+        e, mi = out.setdefault(sig, ([], []))
+        e += g["+"]
+        mi += g["-"]
     if blocker_changed:
-        parts.append("blocker-flag-changed")
-    if not parts:
-        parts = ["order"]
-    return f"{family}/{kind}|" + " ; ".join(parts[:4]), extra, missing
+        out.setdefault(f"{prefix}|blocker flag changed", ([], []))
+    if not out:
+        out[f"{prefix}|order of diagnostics changed"] = ([], [])
+    return [(sig, e, mi) for sig, (e, mi) in out.items()]
 
 
 def check_ignore_run(prog: dict, base: dict, added: dict[int, list[str]], kind: str, warn: str, extra: list[str],
-                     stats: Counter) -> dict | None:
+                     stats: Counter) -> list[dict]:
     text = model.annotate(prog["main"], {ln: comment_text(c) for ln, c in added.items()})
     run = lane.build_once(prog, text, extra)
     o_main = run["file_options"].get(MAIN) or run["options"]
     pr = model.predict_ignores(base, MAIN, added, unused_reporting_on(o_main))
     if pr.skip:
         stats["skipped:" + pr.skip] += 1
-        return None
+        return []
     volatile = set(pr.volatile)
     if base["blocker"]:
         volatile |= set(added)  # analysis stopped early: whether unused-ignore was reached is not promised
@@ -226,10 +251,20 @@ def check_ignore_run(prog: dict, base: dict, added: dict[int, list[str]], kind: 
         stats["runs_with_volatile_lines"] += 1
     if len(expected) != len(base["messages"]) and expected:
         stats["runs_partial_change"] += 1
-    problem = None
+    problems: list[dict] = []
     if not eq or run["blocker"] != base["blocker"]:
-        sig, ex, mi = diff_signature("ignore", kind, actual, expected, run["blocker"] != base["blocker"])
-        problem = {"signature": sig, "extra": ex[:8], "missing": mi[:8]}
+        from mypy.errorcodes import error_codes
+
+        def relation(f: str, ln: int, code: str) -> str:
+            if f != MAIN or ln not in added:
+                return "other-line"
+            if not added[ln]:
+                return "bare"
+            c = error_codes.get(code)
+            return "covering" if c is not None and model.covers(added[ln], c) is not None else "non-covering"
+
+        for sig, ex, mi in diff_groups("ignore", relation, actual, expected, run["blocker"] != base["blocker"]):
+            problems.append({"signature": sig, "extra": ex[:8], "missing": mi[:8]})
     else:
         # the "not covered" notes must tell the truth (they were left out of the byte comparison)
         surviving = [i for i in pr.keep.get(MAIN, [])]
@@ -238,18 +273,19 @@ def check_ignore_run(prog: dict, base: dict, added: dict[int, list[str]], kind: 
             ok = ln in added and (not listed or [x.strip() for x in listed.split(",")] == added[ln]) and any(
                 i.line == ln and i.code is not None and i.code.code == code for i in surviving)
             if not ok:
-                problem = {"signature": f"ignore/{kind}|false 'not covered' note for [{code}]", "extra": [f"{ln}:{code}:{listed}"], "missing": []}
+                problems.append({"signature": f"ignore:non-covering|added|false 'not covered' note for [{code}]",
+                                 "extra": [f"{ln}:{code}:{listed}"], "missing": []})
         have = {(ln, code) for ln, code, _l in notes}
         for i in surviving:
+            # not promised by the property (and undocumented): counted, not judged
             if i.severity == "error" and i.line in coded and i.code is not None and not i.blocker \
                     and i.code.code not in ("unused-ignore", "ignore-without-code") and (i.line, i.code.code) not in have:
-                problem = {"signature": f"ignore/{kind}|missing 'not covered' note for [{i.code.code}]",
-                           "extra": [], "missing": [f"{i.line}:{i.code.code}"]}
-    if problem:
+                stats["surviving_coded_errors_without_not_covered_note (informational)"] += 1
+    for problem in problems:
         problem.update({"family": "ignore", "program": prog["id"], "kind": kind, "warn": warn,
                         "lines": sorted(added), "comments": {str(k): v for k, v in added.items()},
                         "main_text": text, "actual": run["messages"][:30], "expected": expected[:30]})
-    return problem
+    return problems
 
 
 # --------------------------------------------------------------------------- disable family
@@ -264,6 +300,9 @@ def disable_variants(base: dict, prog: dict) -> list[tuple[str, str, list[str], 
         for i in lst:
             if i.code is not None and i.code.code not in present and i.code.code in error_codes:
                 present.append(i.code.code)
+    for _f, i in base["swallowed"]:
+        if i.code is not None and i.code.code not in present and i.code.code in error_codes:
+            present.append(i.code.code)
     out = []
     has_cfg = any(f.startswith("--config-file") for f in prog["flags"])
     for c in sorted(present):
@@ -300,7 +339,7 @@ def codes_after(base: dict, variant: str, c: str) -> dict[str, tuple[set[str], s
     return out
 
 
-def check_disable_run(prog: dict, base: dict, variant: str, c: str, extra: list[str], cfg: dict | None, stats: Counter) -> dict | None:
+def check_disable_run(prog: dict, base: dict, variant: str, c: str, extra: list[str], cfg: dict | None, stats: Counter) -> list[dict]:
     if cfg:
         for name, text in cfg.items():
             with open(name, "w") as f:
@@ -309,12 +348,17 @@ def check_disable_run(prog: dict, base: dict, variant: str, c: str, extra: list[
         run = lane.build_once(prog, prog["main"], extra)
     except SystemExit as e:
         stats["skipped:disable variant rejected by option processing"] += 1
-        return None
-    pr = model.predict_disable(base, codes_after(base, variant, c))
+        return []
+    o_main = run["file_options"].get(MAIN) or run["options"]
+    iwc = any("ignore-without-code" in en for _d, en in base["file_codes"].values())
+    pr = model.predict_disable(base, codes_after(base, variant, c), MAIN, unused_reporting_on(o_main) and not base["blocker"], iwc)
     if pr.skip:
         stats["skipped:" + pr.skip] += 1
-        return None
-    expected = model.render(base["options"], base["ignore_prefix"], pr.keep, {})
+        return []
+    if pr.unused:
+        stats["disable_runs_expecting_existing_ignore_to_become_unused"] += 1
+    extra_infos = {MAIN: [model.unused_info(ln, msg) for ln, msg in sorted(pr.unused.items())]}
+    expected = model.render(base["options"], base["ignore_prefix"], pr.keep, extra_infos)
     actual = list(run["messages"])
     for f, lines in getattr(pr, "volatile_by_file", {}).items():
         disp = os.path.normpath(f)
@@ -335,10 +379,22 @@ def check_disable_run(prog: dict, base: dict, variant: str, c: str, extra: list[
     if expected and len(expected) != len(base["messages"]):
         stats["runs_partial_change"] += 1
     if eq and run["blocker"] == base["blocker"]:
-        return None
-    sig, ex, mi = diff_signature("disable", f"{variant}[{c}]", actual, expected, run["blocker"] != base["blocker"])
-    return {"signature": sig, "extra": ex[:8], "missing": mi[:8], "family": "disable", "program": prog["id"],
-            "variant": variant, "code": c, "extra_flags": extra, "actual": run["messages"][:30], "expected": expected[:30]}
+        return []
+    from mypy.errorcodes import error_codes
+
+    target = error_codes[c].sub_code_of.code if variant == "disable-super" else c
+
+    def relation(f: str, ln: int, code: str) -> str:
+        cc = error_codes.get(code)
+        same = cc is not None and (cc.code == target or (cc.sub_code_of is not None and cc.sub_code_of.code == target))
+        return "same-code" if same else "other-code"
+
+    out = []
+    for sig, ex, mi in diff_groups(f"disable/{variant}", relation, actual, expected, run["blocker"] != base["blocker"]):
+        out.append({"signature": sig, "extra": ex[:8], "missing": mi[:8], "family": "disable", "program": prog["id"],
+                    "variant": variant, "code": c, "extra_flags": extra, "main_text": prog["main"],
+                    "actual": run["messages"][:30], "expected": expected[:30]})
+    return out
 
 
 # --------------------------------------------------------------------------- exit status
@@ -352,6 +408,9 @@ def check_status(prog: dict, text: str, extra: list[str], what: str, stats: Coun
         return None
     if r["crashed"]:
         stats["cli_crashed_runs (not judged)"] += 1
+        return None
+    if r["usage_error"]:
+        stats["cli_usage_errors (flags not accepted on the command line; not judged)"] += 1
         return None
     want = 2 if r["blocker"] else (1 if r["n_error_lines"] else 0)
     stats["exit_status_checks"] += 1
@@ -385,7 +444,7 @@ def explore_program(prog: dict, root: str, only: dict | None = None, part: Any =
     WARN = {"off": ["--no-warn-unused-ignores"], "on": ["--warn-unused-ignores"]}
     bases: dict[str, Any] = {}
     for key, extra in (("own", []), ("off", WARN["off"]), ("on", WARN["on"])):
-        b = take_baseline(prog, extra)
+        b = take_baseline(prog, extra, rerun=key == "own")
         if isinstance(b, str):
             stats["programs_skipped:" + b] += 1
             return {"stats": stats, "problems": problems, "sample": None, "nontrivial": False, "outcome": None}
@@ -435,19 +494,21 @@ def explore_program(prog: dict, root: str, only: dict | None = None, part: Any =
                     continue
                 base = bases[warn]
                 for sub in subs:
-                    if not want("ignore", kind=kind, warn=warn, lines=list(sub)):
+                    do_run = want("ignore", kind=kind, warn=warn, lines=list(sub))
+                    do_status = sub == tuple(lines) and warn == "on" and want("status", what=f"ignore:{kind}:{warn}")
+                    if not (do_run or do_status):
                         continue
                     added = comments_for(base, sub, kind, wrong)
                     if added is None:
                         stats[f"combos_not_applicable:{kind}"] += 1
                         continue
-                    p = check_ignore_run(prog, base, added, kind, warn, WARN[warn], stats)
-                    if p:
-                        problems.append(p)
-                    elif sample is None and kind == "exact":
-                        sample = {"program": prog["id"], "kind": kind, "warn": warn, "lines": list(sub),
-                                  "comments": {str(k): v for k, v in added.items()}, "baseline_messages": len(base["messages"])}
-                    if sub == tuple(lines) and want("status", what=f"ignore:{kind}:{warn}"):
+                    if do_run:
+                        ps = check_ignore_run(prog, base, added, kind, warn, WARN[warn], stats)
+                        problems += ps
+                        if not ps and sample is None and kind == "exact":
+                            sample = {"program": prog["id"], "kind": kind, "warn": warn, "lines": list(sub),
+                                      "comments": {str(k): v for k, v in added.items()}, "baseline_messages": len(base["messages"])}
+                    if do_status:
                         text = model.annotate(prog["main"], {ln: comment_text(c) for ln, c in added.items()})
                         p = check_status(prog, text, WARN[warn], f"ignore:{kind}:{warn}", stats)
                         if p:
@@ -461,12 +522,13 @@ def explore_program(prog: dict, root: str, only: dict | None = None, part: Any =
         stats["programs_disable_family_skipped:per-file error-code configuration"] += 1
     else:
         for variant, c, extra, cfg in disable_variants(own, prog):
-            if not want("disable", variant=variant, code=c):
-                continue
-            p = check_disable_run(prog, own, variant, c, extra, cfg, stats)
-            if p:
-                problems.append(p)
-            if want("status", what=f"{variant}:{c}"):
+            if want("disable", variant=variant, code=c):
+                problems += check_disable_run(prog, own, variant, c, extra, cfg, stats)
+            if variant in ("disable", "per-module") and want("status", what=f"{variant}:{c}"):
+                if cfg:
+                    for name, text in cfg.items():
+                        with open(name, "w") as f:
+                            f.write(text)
                 p = check_status(prog, prog["main"], extra, f"{variant}:{c}", stats)
                 if p:
                     problems.append(p)
@@ -574,6 +636,7 @@ def select_programs(ctx: Ctx) -> tuple[list[dict], dict]:
 
 
 def run(ctx: Ctx) -> Result:
+    scratch("c13")  # create the scratch root in the parent so forked workers share (and the parent removes) it
     progs, info = select_programs(ctx)
     log(f"C13: {len(progs)} programs from {len(info['files'])} files")
     items = work_items(progs)
@@ -641,18 +704,20 @@ def replay(ctx: Ctx, rec: dict) -> Result:
     else:
         only.update(what=d["what"])
 
-    def one(_x: Any) -> dict:
+    def one() -> dict:
         root = scratch("c13", f"r{os.getpid()}")
-        r = explore_program(prog, os.path.join(root, "p"), only)
-        os.chdir("/")
-        shutil.rmtree(root, ignore_errors=True)
+        try:
+            r = explore_program(prog, os.path.join(root, "p"), only)
+        finally:
+            os.chdir("/")
+            shutil.rmtree(root, ignore_errors=True)
         return {"problems": r["problems"], "stats": dict(r["stats"])}
 
+    scratch("c13")
     vs = []
-    for _i, _it, st, val in pmap(one, [0], fresh=True, timeout=600):
-        if st == "ok":
-            for p in val["problems"]:
-                if p["signature"] == rec["signature"]:
-                    vs.append(Violation(p["signature"], f"{p['program']}: reproduced", p))
+    val = run_isolated(one, timeout=900)
+    for p in val["problems"]:
+        if p["signature"] == rec["signature"]:
+            vs.append(Violation(p["signature"], f"{p['program']}: reproduced", p))
     return Result(PROPERTY, LEVEL, {"evaluations": 1, "distinct_nontrivial": 2, "rule": "replay", "samples": [d["program"]],
                                     "exhaustive": True}, vs)
